@@ -57,7 +57,7 @@ theorem runFormatAll_check_world (lib : Lib) (a : Args) (w : Entry) (dir : Optio
   simp only
   split
   · rfl
-  · split <;> split <;> exact walk_check_world lib a hc _ _ _ 0 _
+  · split <;> exact walk_check_world lib a hc _ _ _ 0 _
 
 theorem runStdin_check_world (lib : Lib) (a : Args) (w : Entry) (input : String)
     (hc : a.check = true) (hi : a.inplace = false) : (runStdin lib a w input).world = w := by
@@ -88,5 +88,476 @@ theorem run_check_world (lib : Lib) (a : Args) (w : Entry) (rootName : String) (
       · exact runStdin_check_world lib a w _ hc hi
     · rfl
     · exact runFiles_check_world lib a w _ hc hi
+
+end Typstyle.Cli
+
+namespace Typstyle.Cli
+
+/-! ### `format-all` is a fold of the per-file step over the eligible files (isolation) -/
+
+mutual
+/-- Specification of eligibility for `format-all`: regular files with extension `typ` that are
+not hidden and not inside a hidden sub-directory, in visiting order; the directory the walk starts
+from (depth 0) may be called anything; symbolic links are never followed. -/
+def eligibleFiles : Entry → Path → String → Nat → List (Path × Content)
+  | .file c _, p, name, depth =>
+    if depth > 0 && isHidden name then [] else if hasTypExt name then [(p, c)] else []
+  | .symlink, _, _, _ => []
+  | .dir es, p, name, depth =>
+    if depth > 0 && isHidden name then [] else eligibleFilesL es p (depth + 1)
+def eligibleFilesL : List (String × Entry) → Path → Nat → List (Path × Content)
+  | [], _, _ => []
+  | (n, e) :: r, p, depth => eligibleFiles e (p ++ [n]) n depth ++ eligibleFilesL r p depth
+end
+
+def allStep (lib : Lib) (a : Args) (acc : AllSt) (f : Path × Content) : AllSt := allFile lib a acc f.1 f.2
+
+mutual
+theorem walk_eq_fold (lib : Lib) (a : Args) (acc : AllSt) (p : Path) (name : String) (depth : Nat) :
+    (e : Entry) → walk lib a acc p name depth e = (eligibleFiles e p name depth).foldl (allStep lib a) acc
+  | .file c t => by
+    unfold walk eligibleFiles
+    split
+    · rfl
+    · split <;> rfl
+  | .symlink => by unfold walk eligibleFiles; rfl
+  | .dir es => by
+    unfold walk eligibleFiles
+    split
+    · rfl
+    · exact walkL_eq_fold lib a acc p (depth + 1) es
+theorem walkL_eq_fold (lib : Lib) (a : Args) (acc : AllSt) (p : Path) (depth : Nat) :
+    (es : List (String × Entry)) → walkL lib a acc p depth es = (eligibleFilesL es p depth).foldl (allStep lib a) acc
+  | [] => by unfold walkL eligibleFilesL; rfl
+  | (n, e) :: r => by
+    unfold walkL eligibleFilesL
+    rw [List.foldl_append, ← walk_eq_fold lib a acc (p ++ [n]) n depth e, walkL_eq_fold lib a _ p depth r]
+end
+
+/-! ### what one file contributes -/
+
+/-- The file differs from its formatted form. -/
+def Differs (lib : Lib) (a : Args) (c : Content) : Prop :=
+  ∃ x y, c = .text x ∧ lib a.style x = some y ∧ y ≠ x
+
+instance (lib : Lib) (a : Args) (c : Content) : Decidable (Differs lib a c) := by
+  unfold Differs
+  cases c with
+  | binary => exact isFalse (by rintro ⟨x, y, h, _⟩; cases h)
+  | text s =>
+    cases h : lib a.style s with
+    | none => exact isFalse (by rintro ⟨x, y, hx, hy, _⟩; cases hx; rw [h] at hy; cases hy)
+    | some y =>
+      if hne : y = s then exact isFalse (by rintro ⟨x, y', hx, hy, hn⟩; cases hx; rw [h] at hy; cases hy; exact hn hne)
+      else exact isTrue ⟨s, y, rfl, h, hne⟩
+
+theorem allFile_changed (lib : Lib) (a : Args) (acc : AllSt) (p : Path) (c : Content) :
+    (allFile lib a acc p c).changed = (acc.changed || decide (Differs lib a c)) := by
+  unfold allFile
+  cases c with
+  | binary => simp [Differs]
+  | text s =>
+    simp only
+    cases h : lib a.style s with
+    | none => simp [Differs, h]
+    | some y =>
+      simp only
+      by_cases hy : y = s
+      · subst hy; simp [Differs, h]
+      · have : Differs lib a (.text s) := ⟨s, y, rfl, h, hy⟩
+        have hb : (y == s) = false := by simpa using hy
+        simp only [hb, Bool.false_eq_true, if_false]
+        split <;> simp [this]
+
+theorem allFile_errors (lib : Lib) (a : Args) (acc : AllSt) (p : Path) (c : Content) :
+    (allFile lib a acc p c).errors = acc.errors + (if c = .binary then 1 else 0) := by
+  unfold allFile
+  cases c with
+  | binary => simp
+  | text s =>
+    simp only
+    cases h : lib a.style s with
+    | none => simp
+    | some y => simp only; split <;> (try split) <;> simp_all
+
+theorem foldl_allStep_changed (lib : Lib) (a : Args) (fs : List (Path × Content)) (acc : AllSt) :
+    (fs.foldl (allStep lib a) acc).changed = (acc.changed || fs.any fun f => decide (Differs lib a f.2)) := by
+  induction fs generalizing acc with
+  | nil => simp
+  | cons f fs ih => simp only [List.foldl_cons, ih, allStep, allFile_changed, List.any_cons, Bool.or_assoc]
+
+theorem foldl_allStep_errors (lib : Lib) (a : Args) (fs : List (Path × Content)) (acc : AllSt) :
+    (fs.foldl (allStep lib a) acc).errors = acc.errors + (fs.filter fun f => f.2 = .binary).length := by
+  induction fs generalizing acc with
+  | nil => simp
+  | cons f fs ih =>
+    simp only [List.foldl_cons, ih, allStep, allFile_errors, List.filter_cons]
+    split <;> simp_all <;> omega
+
+/-- T14.3 for `format-all --check`: the exit status is 1 exactly when an eligible file differs from
+its formatted form or an eligible file is unreadable; and 0 otherwise. -/
+theorem runFormatAll_check_exit (lib : Lib) (a : Args) (w : Entry) (dir : Option Path) (rootName : String)
+    (hc : a.check = true) (e : Entry) (he : w.get (dir.getD []) = some e)
+    (fs : List (Path × Content)) (hfs : fs = eligibleFiles e (dir.getD []) (rootNameOf (dir.getD []) rootName) 0) :
+    (runFormatAll lib a w dir rootName).exit =
+      if (fs.any fun f => decide (Differs lib a f.2)) || (fs.any fun f => decide (f.2 = .binary)) then 1 else 0 := by
+  unfold runFormatAll
+  simp only [he]
+  rw [walk_eq_fold, ← hfs]
+  have hch := foldl_allStep_changed lib a fs { st := { world := w } }
+  have her := foldl_allStep_errors lib a fs { st := { world := w } }
+  simp only [Bool.false_or, Nat.zero_add] at hch her
+  simp only [her, hch]
+  by_cases hb : (fs.filter fun f => f.2 = .binary).length > 0
+  · have : fs.any (fun f => decide (f.2 = .binary)) = true := by
+      have := List.length_pos_iff_exists_mem.mp hb
+      obtain ⟨f, hf⟩ := this
+      simp only [List.mem_filter] at hf
+      exact List.any_eq_true.mpr ⟨f, hf.1, hf.2⟩
+    simp [hb, this]
+  · have hnone : fs.any (fun f => decide (f.2 = .binary)) = false := by
+      apply Bool.eq_false_iff.mpr
+      intro h
+      obtain ⟨f, hf, hfb⟩ := List.any_eq_true.mp h
+      apply hb
+      exact List.length_pos_iff_exists_mem.mpr ⟨f, List.mem_filter.mpr ⟨hf, hfb⟩⟩
+    simp only [hb, if_false, hnone, Bool.or_false, exitOf, hc, Bool.true_and]
+
+end Typstyle.Cli
+
+namespace Typstyle.Cli
+
+/-! ### file lists and standard input -/
+
+def outsOf (evs : List Ev) : List String := evs.filterMap fun | .out s => some s | _ => none
+
+@[simp] theorem outsOf_append (a b : List Ev) : outsOf (a ++ b) = outsOf a ++ outsOf b := by
+  simp [outsOf, List.filterMap_append]
+@[simp] theorem outsOf_infoEv (a : Args) (s : String) : outsOf (infoEv a s) = [] := by
+  unfold infoEv; split <;> simp [outsOf]
+@[simp] theorem outsOf_debugEv (a : Args) (s : String) : outsOf (debugEv a s) = [] := by
+  unfold debugEv; split <;> simp [outsOf]
+@[simp] theorem outsOf_warnEv (a : Args) : outsOf (warnEv a) = [] := by
+  unfold warnEv; split <;> simp [outsOf]
+
+/-- What `format_one` prints for one input in plain mode: the library result, or the input itself
+when the library refuses it. -/
+def plainOutput (lib : Lib) (a : Args) (x : String) : String := (lib a.style x).getD x
+
+/-- One input in plain mode (neither `--check` nor `--inplace`): nothing is written, and exactly
+the library result (or the unchanged input) is printed. -/
+theorem formatOne_plain (lib : Lib) (a : Args) (hc : a.check = false) (hi : a.inplace = false)
+    (input : Option Path) (stdin : String) (st : St) (x : String)
+    (hx : getInput st.world input stdin = some x) :
+    (formatOne lib a input stdin st).1.world = st.world ∧
+    outsOf (formatOne lib a input stdin st).1.evs = outsOf st.evs ++ [plainOutput lib a x] ∧
+    (formatOne lib a input stdin st).2.isSome = true := by
+  unfold formatOne
+  simp only [hx, hc, hi, formatDebug, plainOutput]
+  cases h : lib a.style x with
+  | none =>
+    have := outsOf_warnEv a
+    simp [outsOf] at this ⊢
+    exact this
+  | some y => by_cases hy : (y != x) = true <;> simp [hy, outsOf]
+
+/-- One unreadable input: an I/O error, no effect, nothing printed. -/
+theorem formatOne_unreadable (lib : Lib) (a : Args) (p : Path) (st : St) (h : readToString st.world p = none) :
+    formatOne lib a (some p) "" st = (st, none) := by
+  unfold formatOne; simp [getInput, h]
+
+/-- One input with `--check`: nothing is written, no library result is printed, and the status
+says whether the input differs from its formatted form. -/
+theorem formatOne_check (lib : Lib) (a : Args) (hc : a.check = true) (hi : a.inplace = false)
+    (input : Option Path) (stdin : String) (st : St) (x : String)
+    (hx : getInput st.world input stdin = some x) :
+    (formatOne lib a input stdin st).1.world = st.world ∧
+    outsOf (formatOne lib a input stdin st).1.evs = outsOf st.evs ∧
+    (formatOne lib a input stdin st).2 = some (decide (Differs lib a (.text x))) := by
+  unfold formatOne
+  simp only [hx, hc, hi, formatDebug]
+  cases h : lib a.style x with
+  | none =>
+    have : ¬ Differs lib a (.text x) := by rintro ⟨x', y, hx', hy, _⟩; cases hx'; rw [h] at hy; cases hy
+    simp [this]
+  | some y =>
+    by_cases hy : y = x
+    · subst hy
+      have : ¬ Differs lib a (.text y) := by rintro ⟨x', y', hx', hy', hn⟩; cases hx'; rw [h] at hy'; cases hy'; exact hn rfl
+      simp [this]
+    · have hd : Differs lib a (.text x) := ⟨x, y, rfl, h, hy⟩
+      have hb : (y != x) = true := by simpa using hy
+      simp only [hb, if_true]
+      cases input <;> simp [hd]
+
+/-- One input with `--inplace`: the file is rewritten with the library result exactly when that
+differs from its content; nothing is printed. -/
+theorem formatOne_inplace (lib : Lib) (a : Args) (hi : a.inplace = true) (p : Path) (st : St) (x : String)
+    (hx : getInput st.world (some p) "" = some x) :
+    (formatOne lib a (some p) "" st).1.world =
+      (match lib a.style x with
+       | some y => if y = x then st.world else st.world.write p y
+       | none => st.world) ∧
+    outsOf (formatOne lib a (some p) "" st).1.evs = outsOf st.evs := by
+  unfold formatOne
+  simp only [hx, hi, formatDebug]
+  cases h : lib a.style x with
+  | none => simp
+  | some y =>
+    by_cases hy : y = x
+    · subst hy; simp
+    · have hb : (y != x) = true := by simpa using hy
+      simp [hb, hy]
+
+end Typstyle.Cli
+
+namespace Typstyle.Cli
+
+theorem manyStep_error_out (lib : Lib) (a : Args) (acc : ManySt) (p : Path)
+    (h : readToString acc.st.world p = none) :
+    manyStep lib a acc p = { st := { acc.st with evs := acc.st.evs ++ [.error] }, changed := acc.changed, errors := acc.errors + 1 } := by
+  unfold manyStep
+  rw [formatOne_unreadable lib a p acc.st h]
+
+theorem manyStep_ok (lib : Lib) (a : Args) (acc : ManySt) (p : Path) (st' : St) (ch : Bool)
+    (h : formatOne lib a (some p) "" acc.st = (st', some ch)) :
+    manyStep lib a acc p = { acc with st := st', changed := acc.changed || ch } := by
+  unfold manyStep; rw [h]
+
+theorem manyStep_err (lib : Lib) (a : Args) (acc : ManySt) (p : Path) (st' : St)
+    (h : formatOne lib a (some p) "" acc.st = (st', none)) :
+    manyStep lib a acc p = { st := { st' with evs := st'.evs ++ [.error] }, changed := acc.changed, errors := acc.errors + 1 } := by
+  unfold manyStep; rw [h]
+
+/-- Plain mode over a file list: nothing is written; standard output is the concatenation, in
+argument order, of the library results (or unchanged inputs) of the readable inputs; every
+unreadable input is counted and does not affect the others. -/
+theorem foldl_manyStep_plain (lib : Lib) (a : Args) (hc : a.check = false) (hi : a.inplace = false) (w : Entry)
+    (ps : List Path) (acc : ManySt) (hw : acc.st.world = w) :
+    (ps.foldl (manyStep lib a) acc).st.world = w ∧
+    outsOf (ps.foldl (manyStep lib a) acc).st.evs =
+      outsOf acc.st.evs ++ ps.filterMap (fun p => (readToString w p).map (plainOutput lib a)) ∧
+    (ps.foldl (manyStep lib a) acc).errors = acc.errors + (ps.filter fun p => (readToString w p).isNone).length := by
+  induction ps generalizing acc with
+  | nil => simp [hw]
+  | cons p ps ih =>
+    simp only [List.foldl_cons]
+    cases hr : readToString w p with
+    | none =>
+      have hr' : readToString acc.st.world p = none := by rw [hw]; exact hr
+      rw [manyStep_error_out lib a acc p hr']
+      have := ih { st := { acc.st with evs := acc.st.evs ++ [.error] }, changed := acc.changed, errors := acc.errors + 1 } (by simpa using hw)
+      simp only [List.filterMap_cons, hr, Option.map_none, List.filter_cons, Option.isNone_none, if_true, List.length_cons]
+      refine ⟨this.1, ?_, ?_⟩
+      · rw [this.2.1]; simp [outsOf]
+      · rw [this.2.2]; simp only; omega
+    | some x =>
+      have hx : getInput acc.st.world (some p) "" = some x := by simp [getInput, hw, hr]
+      have h1 := formatOne_plain lib a hc hi (some p) "" acc.st x hx
+      cases hf : formatOne lib a (some p) "" acc.st with
+      | mk st' res =>
+        rw [hf] at h1
+        cases res with
+        | none => simp at h1
+        | some ch =>
+          rw [manyStep_ok lib a acc p st' ch hf]
+          have := ih { acc with st := st', changed := acc.changed || ch } (by simpa [hw] using h1.1)
+          simp only [List.filterMap_cons, hr, Option.map_some, List.filter_cons, Option.isNone_some]
+          refine ⟨this.1, ?_, ?_⟩
+          · rw [this.2.1]; simp only at h1 ⊢; rw [h1.2.1]; simp
+          · rw [this.2.2]; simp
+
+/-- `--check` over a file list. -/
+theorem foldl_manyStep_check (lib : Lib) (a : Args) (hc : a.check = true) (hi : a.inplace = false) (w : Entry)
+    (ps : List Path) (acc : ManySt) (hw : acc.st.world = w) :
+    (ps.foldl (manyStep lib a) acc).st.world = w ∧
+    outsOf (ps.foldl (manyStep lib a) acc).st.evs = outsOf acc.st.evs ∧
+    (ps.foldl (manyStep lib a) acc).changed =
+      (acc.changed || ps.any fun p => match readToString w p with
+        | some x => decide (Differs lib a (.text x))
+        | none => false) ∧
+    (ps.foldl (manyStep lib a) acc).errors = acc.errors + (ps.filter fun p => (readToString w p).isNone).length := by
+  induction ps generalizing acc with
+  | nil => simp [hw]
+  | cons p ps ih =>
+    simp only [List.foldl_cons]
+    cases hr : readToString w p with
+    | none =>
+      have hr' : readToString acc.st.world p = none := by rw [hw]; exact hr
+      rw [manyStep_error_out lib a acc p hr']
+      have := ih { st := { acc.st with evs := acc.st.evs ++ [.error] }, changed := acc.changed, errors := acc.errors + 1 } (by simpa using hw)
+      simp only [List.any_cons, hr, Bool.false_or, List.filter_cons, Option.isNone_none, if_true, List.length_cons]
+      refine ⟨this.1, ?_, this.2.2.1, ?_⟩
+      · rw [this.2.1]; simp [outsOf]
+      · rw [this.2.2.2]; simp only; omega
+    | some x =>
+      have hx : getInput acc.st.world (some p) "" = some x := by simp [getInput, hw, hr]
+      have h1 := formatOne_check lib a hc hi (some p) "" acc.st x hx
+      cases hf : formatOne lib a (some p) "" acc.st with
+      | mk st' res =>
+        rw [hf] at h1
+        simp only at h1
+        obtain ⟨h1w, h1o, h1r⟩ := h1
+        subst h1r
+        rw [manyStep_ok lib a acc p st' _ hf]
+        have := ih { acc with st := st', changed := acc.changed || decide (Differs lib a (.text x)) } (by simpa [hw] using h1w)
+        simp only [List.any_cons, hr, List.filter_cons, Option.isNone_some]
+        refine ⟨this.1, ?_, ?_, ?_⟩
+        · rw [this.2.1]; exact h1o
+        · rw [this.2.2.1]; simp [Bool.or_assoc]
+        · rw [this.2.2.2]; simp
+
+/-- The per-file effect of `--inplace` on the file tree. -/
+def inplaceStep (lib : Lib) (a : Args) (w : Entry) (p : Path) : Entry :=
+  match readToString w p with
+  | some x =>
+    (match lib a.style x with
+     | some y => if y = x then w else w.write p y
+     | none => w)
+  | none => w
+
+/-- `--inplace` over a file list: the final tree is the fold of the per-file effect (an
+unreadable, erroneous or already formatted input changes nothing and does not stop the others),
+and nothing is printed. -/
+theorem foldl_manyStep_inplace (lib : Lib) (a : Args) (hi : a.inplace = true)
+    (ps : List Path) (acc : ManySt) :
+    (ps.foldl (manyStep lib a) acc).st.world = ps.foldl (inplaceStep lib a) acc.st.world ∧
+    outsOf (ps.foldl (manyStep lib a) acc).st.evs = outsOf acc.st.evs := by
+  induction ps generalizing acc with
+  | nil => simp
+  | cons p ps ih =>
+    simp only [List.foldl_cons]
+    cases hr : readToString acc.st.world p with
+    | none =>
+      rw [manyStep_error_out lib a acc p hr]
+      have := ih { st := { acc.st with evs := acc.st.evs ++ [.error] }, changed := acc.changed, errors := acc.errors + 1 }
+      refine ⟨?_, ?_⟩
+      · rw [this.1]; simp [inplaceStep, hr]
+      · rw [this.2]; simp [outsOf]
+    | some x =>
+      have hx : getInput acc.st.world (some p) "" = some x := by simp [getInput, hr]
+      have h1 := formatOne_inplace lib a hi p acc.st x hx
+      cases hf : formatOne lib a (some p) "" acc.st with
+      | mk st' res =>
+        rw [hf] at h1
+        simp only at h1
+        cases res with
+        | none =>
+          rw [manyStep_err lib a acc p st' hf]
+          have := ih { st := { st' with evs := st'.evs ++ [.error] }, changed := acc.changed, errors := acc.errors + 1 }
+          refine ⟨?_, ?_⟩
+          · rw [this.1]; simp only [inplaceStep, hr]; rw [h1.1]
+          · rw [this.2]; simp only [outsOf_append]; rw [h1.2]; simp [outsOf]
+        | some ch =>
+          rw [manyStep_ok lib a acc p st' ch hf]
+          have := ih { acc with st := st', changed := acc.changed || ch }
+          refine ⟨?_, ?_⟩
+          · rw [this.1]; simp only [inplaceStep, hr]; rw [h1.1]
+          · rw [this.2]; exact h1.2
+
+end Typstyle.Cli
+
+namespace Typstyle.Cli
+
+/-- The effect of `format-all` (without `--check`) on the file tree for one eligible file. -/
+def allWrite (lib : Lib) (a : Args) (w : Entry) (f : Path × Content) : Entry :=
+  match f.2 with
+  | .binary => w
+  | .text x =>
+    match lib a.style x with
+    | some y => if y = x then w else w.write f.1 y
+    | none => w
+
+theorem allFile_world (lib : Lib) (a : Args) (hc : a.check = false) (acc : AllSt) (p : Path) (c : Content) :
+    (allFile lib a acc p c).st.world = allWrite lib a acc.st.world (p, c) := by
+  unfold allFile allWrite
+  cases c with
+  | binary => rfl
+  | text x =>
+    simp only
+    cases h : lib a.style x with
+    | none => rfl
+    | some y =>
+      simp only
+      by_cases hy : y = x
+      · subst hy; simp
+      · have hb : (y == x) = false := by simpa using hy
+        simp [hb, hy, hc]
+
+theorem allFile_outs (lib : Lib) (a : Args) (acc : AllSt) (p : Path) (c : Content) :
+    outsOf (allFile lib a acc p c).st.evs = outsOf acc.st.evs := by
+  unfold allFile
+  cases c with
+  | binary => simp [outsOf]
+  | text x =>
+    simp only
+    cases h : lib a.style x with
+    | none => simp
+    | some y => simp only; split <;> (try split) <;> simp
+
+theorem foldl_allStep_world (lib : Lib) (a : Args) (hc : a.check = false) (fs : List (Path × Content)) (acc : AllSt) :
+    (fs.foldl (allStep lib a) acc).st.world = fs.foldl (allWrite lib a) acc.st.world := by
+  induction fs generalizing acc with
+  | nil => rfl
+  | cons f fs ih => simp only [List.foldl_cons, ih, allStep, allFile_world lib a hc]
+
+theorem foldl_allStep_outs (lib : Lib) (a : Args) (fs : List (Path × Content)) (acc : AllSt) :
+    outsOf (fs.foldl (allStep lib a) acc).st.evs = outsOf acc.st.evs := by
+  induction fs generalizing acc with
+  | nil => rfl
+  | cons f fs ih => simp only [List.foldl_cons, ih, allStep, allFile_outs]
+
+/-! ### frame lemmas for `write` -/
+
+theorem lookup_writeL_same (es : List (String × Entry)) (n : String) (p : Path) (s : String) :
+    lookup (writeL es n p s) n = (lookup es n).map fun e => e.write p s := by
+  induction es with
+  | nil => simp [writeL, lookup]
+  | cons h t ih =>
+    obtain ⟨k, e⟩ := h
+    unfold writeL
+    by_cases hk : (k == n) = true
+    · simp [hk, lookup]
+    · simp only [hk, Bool.false_eq_true, if_false, lookup]
+      exact ih
+
+theorem lookup_writeL_other (es : List (String × Entry)) (n m : String) (p : Path) (s : String) (h : (m == n) = false) :
+    lookup (writeL es n p s) m = lookup es m := by
+  induction es with
+  | nil => simp [writeL, lookup]
+  | cons hd t ih =>
+    obtain ⟨k, e⟩ := hd
+    unfold writeL
+    by_cases hk : (k == n) = true
+    · have hkn : k = n := by simpa using hk
+      have hkm : (k == m) = false := by
+        subst hkn
+        cases hkm : (k == m) with
+        | false => rfl
+        | true =>
+          have : k = m := by simpa using hkm
+          subst this; simp at h
+      simp [hk, lookup, hkm]
+    · simp only [hk, Bool.false_eq_true, if_false, lookup]
+      split
+      · rfl
+      · exact ih
+
+/-- Writing a file makes its content exactly the written text. -/
+theorem readToString_write_same : (w : Entry) → (p : Path) → (s x : String) →
+    readToString w p = some x → readToString (w.write p s) p = some s
+  | .file c t, [], s, x, _ => by simp [readToString, Entry.write, Entry.get]
+  | .file c t, n :: p, s, x, h => by simp [readToString, Entry.get] at h
+  | .symlink, [], s, x, h => by simp [readToString, Entry.get] at h
+  | .symlink, n :: p, s, x, h => by simp [readToString, Entry.get] at h
+  | .dir es, [], s, x, h => by simp [readToString, Entry.get] at h
+  | .dir es, n :: p, s, x, h => by
+    simp only [readToString, Entry.write, Entry.get, lookup_writeL_same] at h ⊢
+    cases hl : lookup es n with
+    | none => simp [hl] at h
+    | some e =>
+      simp only [hl, Option.map_some] at h ⊢
+      have := readToString_write_same e p s x (by simpa [readToString] using h)
+      simpa [readToString] using this
 
 end Typstyle.Cli
